@@ -22,12 +22,24 @@ flips, splices, truncations, duplications, deletions of tags / quotes) of the ar
 over an adversarial alphabet through `parse` (result trees compared exactly); sizes up to 64 KiB and
 selected shapes up to 1 MiB + 1 through load_ksr / load_skr on real temporary files; and the
 `re` differential of harness/regex_diff.py.
+
+The loaders' OPTIONS and the file NAME are inputs too (stream "load-options"): every optional parameter
+of load_ksr / load_skr (read off their signatures with `inspect`: raise_original, log_contents, …; both
+values of every flag, all combinations) x the length of the file path on a lattice (the short scratch
+name; len(str(path)) = 200, 240, 249, 250, 251, 255, 256, 300, 1000, 4000 — nested directories with
+components of at most 255 octets under the run's `.scratch_*` directory, removed afterwards) x valid
+and invalid documents (archived KSRs / SKR, bad signature, policy violation, truncated, not UTF-8,
+empty, over the size cap, 1 MiB of newlines / of one line), with and without a log handler that
+formats every record.  Same oracle — terminates within the budget with a fully validated object or a
+clean error, an over-size file is refused unread — plus: the outcome (object / error class / whether
+the file was read) is the same as for the same file under the short name without logging.
 """
 
 from __future__ import annotations
 
 import hashlib
 import json
+import logging
 import multiprocessing as mp
 import os
 import random
@@ -53,6 +65,9 @@ ASSUMPTIONS = [
     "inputs on which the model predicts non-termination (F1) are confirmed on the implementation with a short budget (0.6 s; a sample with the full 10 s), and only a capped number of them per run — the rest are counted as `hang_predicted_not_replayed`",
     "load_ksr / load_skr are run with the clock pinned (PinnedClock) so that the archived 2018 KSR validates with every check enabled",
     "files are decoded as strict UTF-8 by Lean's String.fromUTF8? in the model; differences to CPython's decoder would show as disagreements",
+    "the length of the file path and the logging options are no inputs of the model: in stream load-options the model is asked once per (file, policy, non-logging options) and every other member of the group is compared with that base on the implementation's side",
+    "options whose name starts with `log` are taken to concern logging only (log_contents); any other optional parameter (raise_original) may change the outcome and separates groups",
+    "path lengths are counted in characters of str(path) (ASCII components); the file system's own limits (NAME_MAX 255, PATH_MAX 4096) bound the lattice at 4000",
 ]
 TRUSTED = ["the watchdog pool of corr_C13 (timing, kill/restart)", "Python's `re` as the reference for the three matchers (regex_diff)"]
 
@@ -213,6 +228,54 @@ def _spy_open(counter: dict[str, int]) -> Any:
     return _open
 
 
+NAME_MAX = 255
+PATH_LENGTHS = [None, 200, 240, 249, 250, 251, 255, 256, 300, 1000, 4000]  # None = the short scratch name; else len(str(path))
+
+
+def path_of_length(base: Path, total: int) -> Path:
+    """A file path below `base` whose string form has exactly `total` characters, made of nested directories
+    with components of at most NAME_MAX octets (ASCII), the last component being the file name."""
+    need = total - len(str(base))  # still to add, separators included; every component costs 1 + its length
+    if need < 2:
+        raise ValueError(f"no path of {total} characters below {base}")
+    parts: list[str] = []
+    while need > NAME_MAX + 1:
+        take = min(NAME_MAX, need - 1 - 2)  # leave room for "/" + a file name of at least one character
+        parts.append("d" * take)
+        need -= take + 1
+    n = need - 1
+    parts.append(("f" * (n - 4) + ".xml") if n > 4 else "f" * n)
+    out = base.joinpath(*parts)
+    assert len(str(out)) == total and all(len(x.encode()) <= NAME_MAX for x in parts)
+    return out
+
+
+class _CountingSink(logging.Handler):
+    """A log handler as a deployment would have one: every record is formatted, none is kept."""
+
+    def __init__(self) -> None:
+        super().__init__(logging.DEBUG)
+        self.records = 0
+        self.chars = 0
+
+    def emit(self, record: logging.LogRecord) -> None:
+        self.records += 1
+        self.chars += len(record.getMessage())
+
+
+def loader_options(fn: Any) -> dict[str, list[Any]]:
+    """The optional parameters of a loader (everything after `filename, policy`), read off its signature:
+    name -> the values to run it with (both values of a flag; the default of anything else)."""
+    import inspect
+
+    out: dict[str, list[Any]] = {}
+    for name, par in list(inspect.signature(fn).parameters.items())[2:]:
+        if par.default is inspect.Parameter.empty or par.kind in (par.VAR_POSITIONAL, par.VAR_KEYWORD):
+            continue
+        out[name] = [False, True] if isinstance(par.default, bool) else [par.default]
+    return out
+
+
 def _impl(p: dict[str, Any], scratch: Path) -> dict[str, Any]:
     """Run one implementation call; returns {"outcome": …, extras}."""
     kind = p["kind"]
@@ -266,7 +329,14 @@ def _impl(p: dict[str, Any], scratch: Path) -> dict[str, Any]:
         data: bytes = p["bytes"]
         if p.get("pad_to"):
             data = data + b" " * (p["pad_to"] - len(data))
-        fn = scratch / f"in_{os.getpid()}.xml"
+        # the file NAME is an input too: the short scratch name, or a path of an exact total length
+        tree: Path | None = None
+        if p.get("path_len"):
+            tree = scratch / f"w{os.getpid()}"
+            fn = path_of_length(tree, p["path_len"])
+            fn.parent.mkdir(parents=True, exist_ok=True)
+        else:
+            fn = scratch / f"in_{os.getpid()}.xml"
         fn.write_bytes(data)
         counter = {"open": 0, "read": 0}
         mod = kload if kind == "load_ksr" else sload
@@ -274,19 +344,39 @@ def _impl(p: dict[str, Any], scratch: Path) -> dict[str, Any]:
         rec = lib.VerifyRecorder().install(sigmod)
         pol = _policy(p["policy"])
         out: dict[str, Any] = {}
+        # … and so are the loader's optional parameters
+        opts = dict(p.get("options") or {})
+        if kind == "load_ksr":
+            opts.setdefault("raise_original", p.get("raise_original", False))
+        sink: _CountingSink | None = None
+        root_logger = logging.getLogger("kskm")
+        saved = (logging.root.manager.disable, root_logger.level, root_logger.propagate)
+        if p.get("log_sink"):
+            sink = _CountingSink()
+            logging.disable(logging.NOTSET)
+            root_logger.setLevel(logging.DEBUG)
+            root_logger.propagate = False
+            root_logger.addHandler(sink)
         try:
             with lib.PinnedClock() as clock:
                 clock.now_us = p["now"]
                 try:
                     if kind == "load_ksr":
-                        obj = kload.load_ksr(fn, pol, raise_original=p.get("raise_original", False))
+                        obj = kload.load_ksr(fn, pol, **opts)
                         out["outcome"] = {"ok": canon_obj(lib.request_j(obj))}
                     else:
-                        obj = sload.load_skr(fn, pol)
+                        obj = sload.load_skr(fn, pol, **opts)
                         out["outcome"] = {"ok": canon_obj(lib.response_j(obj))}
                 except Exception as exc:  # noqa: BLE001
                     out["outcome"] = _classify(exc)
                     obj = None
+                finally:
+                    if sink is not None:
+                        root_logger.removeHandler(sink)
+                        logging.disable(saved[0])
+                        root_logger.setLevel(saved[1])
+                        root_logger.propagate = saved[2]
+                        out["log_records"] = sink.records
                 out["verify"] = rec.take()
                 if obj is not None:
                     # the property: whatever is returned has undergone full validation
@@ -306,6 +396,9 @@ def _impl(p: dict[str, Any], scratch: Path) -> dict[str, Any]:
                 fn.unlink()
             except OSError:
                 pass
+            if tree is not None:
+                shutil.rmtree(tree, ignore_errors=True)
+        out["path_chars"] = len(str(fn))
         out["read_called"] = counter["read"] > 0
         out["size"] = len(data)
         return out
@@ -910,8 +1003,9 @@ def run(tier: str, driver_ok: bool) -> Result:
     res.rule = (
         "syntax-variant dictionary x small generated KSRs/SKRs; random mutations (bit flip, truncate, delete/duplicate/splice span, delete/duplicate/swap tag, "
         "delete/replace quote, insert/replace char, delete bracket) of the 5 archived KSRs, the archived SKR and 8 generated documents; tree-level grammar violations; "
-        "tiny adversarial strings through parse() (trees compared exactly); size shapes 64 KiB .. 1 MiB+1 through load_ksr/load_skr on real files; a case is "
-        "non-trivial when its text is new"
+        "tiny adversarial strings through parse() (trees compared exactly); size shapes 64 KiB .. 1 MiB+1 through load_ksr/load_skr on real files; "
+        "every optional parameter of the two loaders (both values, all combinations) x path length {short, 200, 240, 249, 250, 251, 255, 256, 300, 1000, 4000} x 22 valid / invalid files "
+        "x log handler off / on (outcome must equal that under the short name without logging); a case is non-trivial when its text is new"
     )
     r = lib.rng("C13")
     quick = tier == "quick"
@@ -1074,6 +1168,68 @@ def run(tier: str, driver_ok: bool) -> Result:
     for name, ld, data, pad in size_shapes(tier):
         add_load("size", name, ld, data, "request-default" if ld == "load_ksr" else "response-default", pad)
 
+    # the loaders' OPTIONS and the file NAME are inputs too: every optional parameter of load_ksr / load_skr (read off the
+    # signatures; both values of every flag) x path lengths on a lattice x valid and invalid documents, with and without a
+    # log handler that formats every record.  Same oracle as always, plus: the outcome (object / error class) must not
+    # depend on the path length or on anything that only concerns logging.
+    import itertools
+
+    import kskm.ksr.load as _kload
+    import kskm.skr.load as _sload
+
+    opt_space = {"load_ksr": loader_options(_kload.load_ksr), "load_skr": loader_options(_sload.load_skr)}
+    res.stats["loader_options"] = {k: {n: [str(x) for x in v] for n, v in o.items()} for k, o in opt_space.items()}
+    MiB = 1 << 20
+    sigflip = lambda t: sub1(t, r"<SignatureData>(.)", lambda m: "<SignatureData>" + ("B" if m.group(1) == "A" else "A"))  # noqa: E731
+    opt_docs: list[tuple[str, str, bytes, str, int | None]] = [
+        ("ksr18", "load_ksr", ksr18.encode(), "request-default", None),
+        ("ksr18-crlf", "load_ksr", ksr18.replace("\n", "\r\n").encode(), "request-default", None),
+        ("ksr18-one-line", "load_ksr", re.sub(r">\s+<", "><", ksr18).encode(), "request-default", None),
+        ("ksr-2016-q3", "load_ksr", dict(arch["request"])["ksr-root-2016-q3-0.xml"].encode(), "request-relaxed", None),
+        ("ksr-2010-q2", "load_ksr", dict(arch["request"])["ksr-root-2010-q2-0.xml"].encode(), "request-relaxed", None),
+        ("ksr18-bad-signature", "load_ksr", sigflip(ksr18).encode(), "request-default", None),
+        ("ksr18-policy-violation", "load_ksr", ksr18.encode(), 'request:{"num_bundles": 8}', None),
+        ("ksr18-truncated", "load_ksr", ksr18[: len(ksr18) // 2].encode(), "request-default", None),
+        ("ksr18-single-quotes", "load_ksr", sub1(ksr18, r'id="([^"]*)"', r"id='\1'").encode(), "request-default", None),
+        ("ksr18-not-utf8", "load_ksr", b"\xff\xfe" + ksr18.encode(), "request-default", None),
+        ("ksr-empty", "load_ksr", b"", "request-default", None),
+        ("ksr-generated", "load_ksr", gen["request"][0][1].encode(), "request-default", None),
+        ("ksr18-padded-1MiB+1", "load_ksr", ksr18.encode(), "request-default", MiB + 1),
+        ("skr18", "load_skr", skr18.encode(), "response-default", None),
+        ("skr18-wrong-count", "load_skr", skr18.encode(), "response-2", None),
+        ("skr18-bad-signature", "load_skr", sigflip(skr18).encode(), "response-default", None),
+        ("skr18-truncated", "load_skr", skr18[: len(skr18) // 3].encode(), "response-default", None),
+        ("skr-not-xml", "load_skr", b"hello world\n", "response-default", None),
+    ]
+    big_docs: list[tuple[str, str, bytes, str, int | None]] = [
+        ("newlines-1MiB", "load_ksr", b"\n" * MiB, "request-default", None),
+        ("one-line-1MiB", "load_ksr", b'<KSR id="a" serial="1" domain="."><Request>' + b"A" * (MiB - 100) + b"</Request></KSR>", "request-default", None),
+        ("ksr18-padded-1MiB", "load_ksr", ksr18.encode(), "request-default", MiB),
+        ("skr18-padded-1MiB", "load_skr", skr18.encode(), "response-default", MiB),
+    ]
+
+    def is_logging_option(n: str) -> bool:
+        return n.startswith("log")
+
+    option_groups: dict[str, list[int]] = {}
+    for dname, kind, data, pol, pad in opt_docs + big_docs:
+        names = list(opt_space[kind])
+        big = (dname, kind, data, pol, pad) in big_docs
+        for values in itertools.product(*(opt_space[kind][n] for n in names)):
+            opts = dict(zip(names, values))
+            for plen in PATH_LENGTHS if not big else [None, 250, 1000]:
+                for sink in (False, True):
+                    if sink and (big or plen not in (None, 250, 1000)):
+                        continue
+                    label = ",".join(f"{n}={v}" for n, v in opts.items())
+                    gkey = json.dumps([dname, kind, pol, {n: v for n, v in opts.items() if not is_logging_option(n)}], default=str)
+                    base_case = plen is None and not sink and not any(v for n, v in opts.items() if is_logging_option(n))
+                    option_groups.setdefault(gkey, []).append(len(load_cases))
+                    add_load(
+                        "load-options", f"{dname}:{label}:path={plen or 'short'}:sink={sink}", kind, data, pol, pad,
+                        options=opts, raise_original=bool(opts.get("raise_original", False)), path_len=plen, log_sink=sink, group=gkey, group_base=base_case,
+                    )
+
     # pre-pass of the model on the load cases that decode: proved-divergent ones get the short budget
     pre_lines = []
     pre_idx = []
@@ -1098,13 +1254,27 @@ def run(tier: str, driver_ok: bool) -> Result:
             budget = HANG_CONFIRM_BUDGET
         else:
             budget = BUDGET
-        p = {k: c[k] for k in ("kind", "bytes", "policy", "now", "pad_to", "raise_original") if c.get(k) is not None}
+        p = {k: c[k] for k in ("kind", "bytes", "policy", "now", "pad_to", "raise_original", "options", "path_len", "log_sink") if c.get(k) is not None}
         tasks.append((p, budget))
         load_task_case.append(i)
 
     t0 = time.time()
+    # the load-options cases come last and run in slices: once several of them have overrun the full budget, the rest of
+    # the stream gets a shorter one (a good load takes some 0.02 s), so that a loader that hangs for a whole class of
+    # options does not cost 10 s for every member of the class; the cases reported first have had the full budget
+    n_text_tasks = len(task_case)
+    first_opt = next((k for k, ci in enumerate(load_task_case) if load_cases[ci].get("group")), len(load_task_case)) + n_text_tasks
+    REDUCED_BUDGET = 2.0
     with WatchdogPool(min(16, os.cpu_count() or 4)) as pool:
-        outs = pool.run(tasks)
+        outs = pool.run(tasks[:first_opt])
+        overruns = 0
+        for lo in range(first_opt, len(tasks), 64):
+            if overruns >= 8:
+                tasks[lo : lo + 64] = [(p_, min(b_, REDUCED_BUDGET)) for p_, b_ in tasks[lo : lo + 64]]
+                res.stats["load-options:run-with-reduced-budget"] = res.stats.get("load-options:run-with-reduced-budget", 0) + len(tasks[lo : lo + 64])
+            part = pool.run(tasks[lo : lo + 64])
+            overruns += sum(1 for o_ in part if o_.get("timeout"))
+            outs += part
         res.stats["worker_restarts"] = pool.restarts
     res.stats["impl_wall_s"] = round(time.time() - t0, 1)
 
@@ -1117,6 +1287,8 @@ def run(tier: str, driver_ok: bool) -> Result:
         c = load_cases[ci]
         if len(c["bytes"]) > 300000 and not c.get("pad_to"):
             continue  # MiB-sized documents: judged by the property only (the hex line would be 2+ MB)
+        if c.get("group") and not c.get("group_base"):
+            continue  # path length / logging are no inputs of the model: the base of the group stands for it, the rest is compared with the base
         pol = _policy(c["policy"])
         body = c["bytes"]
         ln = {
@@ -1138,15 +1310,33 @@ def run(tier: str, driver_ok: bool) -> Result:
     load_model = dict(zip(load_line_case, drive(load_lines, procs=8))) if driver_ok else {}
 
     # --- judge
-    def judge(c: dict[str, Any], o: dict[str, Any], m: Any, budget: float, text_for_key: str) -> None:
+    def case_of(c: dict[str, Any]) -> dict[str, Any]:
         key_case = {"stream": c["stream"], "name": c["name"], "kind": c["kind"]}
         if "text" in c:
             key_case["text"] = c["text"] if len(c["text"]) <= 20000 else c["text"][:2000] + f"...[{len(c['text'])} chars]"
         else:
-            key_case["bytes_hex"] = c["bytes"].hex() if len(c["bytes"]) <= 20000 else c["bytes"][:400].hex() + f"...[{len(c['bytes'])} octets]"
+            key_case["bytes_hex"] = c["bytes"].hex() if len(c["bytes"]) <= 40000 else c["bytes"][:400].hex() + f"...[{len(c['bytes'])} octets]"
             key_case.update({"policy": c["policy"], "now": c["now"], "pad_to": c.get("pad_to"), "raise_original": c.get("raise_original", False)})
+            for k in ("options", "path_len", "log_sink"):
+                if c.get(k) is not None:
+                    key_case[k] = c[k]
         if "recurse" in c:
             key_case["recurse"] = c["recurse"]
+        return key_case
+
+    def option_key(c: dict[str, Any]) -> str:
+        on = ",".join(n for n, v in (c.get("options") or {}).items() if v is True) or "defaults"
+        return f"load-options:{on}:path={c.get('path_len') or 'short'}:sink={bool(c.get('log_sink'))}"
+
+    def judge(c: dict[str, Any], o: dict[str, Any], m: Any, budget: float, text_for_key: str) -> None:
+        key_case = case_of(c)
+        if c.get("group"):
+            res.bump(f"load-options:path={c.get('path_len') or 'short'}")
+            res.bump("load-options:" + ",".join(f"{n}={v}" for n, v in (c.get("options") or {}).items()) + f",sink={bool(c.get('log_sink'))}")
+            if o.get("log_records"):
+                res.bump("load-options:log-records-formatted", o["log_records"])
+            if c.get("path_len") and o.get("path_chars") not in (None, c["path_len"]):
+                res.disagreement("harness self-test: the file path does not have the requested length", key_case, o.get("path_chars"), c["path_len"])
         res.count(hashlib.sha1(c["text"].encode() if "text" in c else c["bytes"] + str(c.get("pad_to")).encode()).hexdigest())
         res.bump("stream:" + c["stream"])
         res.bump("kind:" + c["kind"])
@@ -1160,7 +1350,8 @@ def run(tier: str, driver_ok: bool) -> Result:
                 res.bump("hang:confirmed")
                 res.violation("does not terminate promptly", key_case, key=hang_key(text_for_key), budget_s=budget, model="hang (proved: KskmProofs.C13 parseAttrs_diverges)")
             else:
-                res.violation("load exceeds the 10 s budget", key_case, key=slow_key(text_for_key), budget_s=budget, model=m if not isinstance(m, dict) or "ok" not in m else "ok")
+                extra = {"note": "run with a reduced budget after 8 members of this stream had overrun the full 10 s"} if c.get("group") and budget < BUDGET else {}
+                res.violation("load exceeds the 10 s budget", key_case, key=option_key(c) if c.get("group") else slow_key(text_for_key), budget_s=budget, model=m if not isinstance(m, dict) or "ok" not in m else "ok", **extra)
             return
         res.stats["max_elapsed_s"] = max(res.stats.get("max_elapsed_s", 0.0), round(o.get("elapsed", 0.0), 3))
         if o.get("elapsed", 0.0) > 2.0:
@@ -1240,6 +1431,25 @@ def run(tier: str, driver_ok: bool) -> Result:
         except Exception:  # noqa: BLE001
             tk = ""
         judge(c, o, m if m is not None else ("hang" if ci in load_hang else None), tasks[n_text + k][1], tk)
+    # the outcome must not depend on the path length or on logging: every member of an option group against its base
+    out_by_case = {ci: load_outs[k] for k, ci in enumerate(load_task_case)}
+    obs = lambda o: {"outcome": o.get("outcome"), "read_called": o.get("read_called"), "revalidates": o.get("revalidates")}  # noqa: E731
+    for gkey, members in option_groups.items():
+        bases = [ci for ci in members if load_cases[ci].get("group_base") and ci in out_by_case]
+        if not bases or out_by_case[bases[0]].get("timeout") or out_by_case[bases[0]].get("died"):
+            continue
+        bo = obs(out_by_case[bases[0]])
+        res.bump("load-options:groups")
+        res.bump("load-options:base-outcome:" + ("object" if isinstance(bo["outcome"], dict) and "ok" in bo["outcome"] else "violation" if isinstance(bo["outcome"], dict) and "violation" in bo["outcome"] else "error"))
+        for ci in members:
+            o = out_by_case.get(ci)
+            if o is None or ci == bases[0] or o.get("timeout") or o.get("died"):
+                continue  # (an overrun is reported by judge)
+            if obs(o) != bo:
+                c = load_cases[ci]
+                res.violation("the outcome of loading depends on the path length or on logging", case_of(c), key=option_key(c), impl=_short(obs(o)), same_file_short_path_no_logging=_short(bo))
+            else:
+                res.bump("load-options:same-outcome-as-base")
     skipped = sum(1 for c in cases + load_cases if c.get("skipped_hang"))
     res.stats["hang_predicted_not_replayed"] = skipped
     res.stats["hang_predicted"] = sum(1 for m in model if m == "hang") + len(load_hang)
@@ -1273,7 +1483,8 @@ def replay(obj: dict[str, Any]) -> Any:
         p = {k: c[k] for k in ("kind", "text", "recurse") if k in c}
         out["model_now"] = _short(drive([model_line(p)])[0])
     elif "bytes_hex" in c and not c["bytes_hex"].endswith(" octets]"):
-        p = {"kind": c["kind"], "bytes": bytes.fromhex(c["bytes_hex"]), "policy": c["policy"], "now": c["now"], "pad_to": c.get("pad_to"), "raise_original": c.get("raise_original", False)}
+        p = {"kind": c["kind"], "bytes": bytes.fromhex(c["bytes_hex"]), "policy": c["policy"], "now": c["now"], "pad_to": c.get("pad_to"), "raise_original": c.get("raise_original", False),
+             "options": c.get("options"), "path_len": c.get("path_len"), "log_sink": c.get("log_sink")}
         p = {k: x for k, x in p.items() if x is not None}
     else:
         return out
